@@ -752,7 +752,12 @@ pub fn run(case: &Case, _known: &BTreeSet<String>) -> Outcome {
             if k % nslices != slice {
                 continue;
             }
-            if !run_plan(&mut o, vec![Fault { k, kind: FaultKind::Fail }], false) {
+            // the plain failure: ErrorKind::Other at every other position of the slice, one of
+            // eight other kinds (UnexpectedEof ... WriteZero) at the positions in between -
+            // nothing in the property depends on the kind, so nothing in the library may
+            let j = k / nslices;
+            let kind = if j % 2 == 0 { FaultKind::Fail } else { FaultKind::FailAs { flavour: 1 + ((j / 2) % 8) as u8 } };
+            if !run_plan(&mut o, vec![Fault { k, kind }], false) {
                 break 'enumerate;
             }
             if !run_plan(&mut o, vec![Fault { k, kind: FaultKind::Torn { keep } }], false) {
